@@ -5,7 +5,7 @@
 # A check that reports a violation on such a change is a false alarm of the machinery.
 set -u
 IN=$1; ID=$2; TIER=${3:-quick}
-export GOFLAGS=-mod=mod GOPROXY=off GOSUMDB=off GOTOOLCHAIN=local
+export VERIF_NO_EVIDENCE=1 GOFLAGS=-mod=mod GOPROXY=off GOSUMDB=off GOTOOLCHAIN=local
 cd /verif
 if [ -n "$(git -C /repo status --short)" ]; then echo "/repo is not clean"; exit 2; fi
 if ! git -C /repo apply --check $IN/patch.diff 2>/dev/null; then echo "patch does not apply"; exit 3; fi
